@@ -21,14 +21,16 @@ class XsiCache(defaultdict):
 
     Attributes:
         sys_modules: The number of loaded sys modules when it was built
+        unsupported: The classes that turned out not to be binding models
     """
 
-    __slots__ = ("sys_modules",)
+    __slots__ = ("sys_modules", "unsupported")
 
     def __init__(self, sys_modules: int = 0):
         """Initialize the index."""
         super().__init__(list)
         self.sys_modules = sys_modules
+        self.unsupported: set[type] = set()
 
 
 class XmlContext:
@@ -329,20 +331,19 @@ class XmlContext:
         Returns:
             Whether the class contains all the field names.
         """
+        index = self.xsi_cache
+        if clazz in index.unsupported:
+            return False
+
         try:
             meta = self.build(clazz)
             local_names = {var.local_name for var in meta.get_all_vars()}
             return not names.difference(local_names)
         except (XmlContextError, NameError, TypeError):
-            # The dataclass includes unsupported typing annotations
-            # Let's remove it from xsi_cache
-            builder = self.get_builder()
-            target_qname = builder.build_class_meta(clazz).target_qname
-            if target_qname and target_qname in self.xsi_cache:
-                # Another thread may have removed it already
-                with suppress(ValueError):
-                    self.xsi_cache[target_qname].remove(clazz)
-
+            # The dataclass includes unsupported typing annotations, remember
+            # it until the index is rebuilt. The index itself stays intact,
+            # lookups by name give the same answer before and after.
+            index.unsupported.add(clazz)
             return False
 
     @classmethod
